@@ -151,6 +151,68 @@ pub fn funcs() -> Vec<(u32, &'static str, fn() -> FunctionCall)> {
     v
 }
 
+
+/// structural hash of a case node (FNV-1a over its text): decides, per node, which of several equivalent
+/// ways of building it is taken
+pub fn shash(s: &S) -> u64 {
+    match s {
+        S::A(x) => x.bytes().fold(0xcbf29ce484222325u64, |h, b| (h ^ b as u64).wrapping_mul(0x100000001b3)),
+        S::L(l) => l.iter().fold(0x9e3779b97f4a7c15u64, |h, x| (h ^ shash(x)).wrapping_mul(0x100000001b3).rotate_left(7)),
+    }
+}
+
+/// the ExprTrait method that is documented to build `l <op> r`, where there is one
+fn api_bin(l: SimpleExpr, op: &str, r: SimpleExpr) -> Option<SimpleExpr> {
+    Some(match op {
+        "eq" => ExprTrait::eq(l, r),
+        "ne" => ExprTrait::ne(l, r),
+        "lt" => ExprTrait::lt(l, r),
+        "gt" => ExprTrait::gt(l, r),
+        "le" => ExprTrait::lte(l, r),
+        "ge" => ExprTrait::gte(l, r),
+        "add" => ExprTrait::add(l, r),
+        "sub" => ExprTrait::sub(l, r),
+        "mul" => ExprTrait::mul(l, r),
+        "div" => ExprTrait::div(l, r),
+        "mod" => ExprTrait::modulo(l, r),
+        "lshift" => ExprTrait::left_shift(l, r),
+        "rshift" => ExprTrait::right_shift(l, r),
+        "and" => ExprTrait::and(l, r),
+        "or" => ExprTrait::or(l, r),
+        "is" => ExprTrait::is(l, r),
+        "isnot" => ExprTrait::is_not(l, r),
+        "bitand" => ExprTrait::bit_and(l, r),
+        "bitor" => ExprTrait::bit_or(l, r),
+        _ => return None,
+    })
+}
+
+/// the Func constructor called with the real arguments, where the arity fits its signature
+fn api_func(name: &str, args: &[SimpleExpr]) -> Option<FunctionCall> {
+    let one = |f: fn(SimpleExpr) -> FunctionCall| if args.len() == 1 { Some(f(args[0].clone())) } else { None };
+    match name {
+        "max" => one(|x| Func::max(x)),
+        "min" => one(|x| Func::min(x)),
+        "sum" => one(|x| Func::sum(x)),
+        "avg" => one(|x| Func::avg(x)),
+        "abs" => one(|x| Func::abs(x)),
+        "count" => one(|x| Func::count(x)),
+        "charlength" => one(|x| Func::char_length(x)),
+        "lower" => one(|x| Func::lower(x)),
+        "upper" => one(|x| Func::upper(x)),
+        "bitand" => one(|x| Func::bit_and(x)),
+        "bitor" => one(|x| Func::bit_or(x)),
+        "round" => one(|x| Func::round(x)),
+        "md5" => one(|x| Func::md5(x)),
+        "ifnull" if args.len() == 2 => Some(Func::if_null(args[0].clone(), args[1].clone())),
+        "greatest" => Some(Func::greatest(args.to_vec())),
+        "least" => Some(Func::least(args.to_vec())),
+        "coalesce" => Some(Func::coalesce(args.to_vec())),
+        "random" if args.is_empty() => Some(Func::random()),
+        _ => None,
+    }
+}
+
 // ---------------------------------------------------------------------------------------------
 // values
 // ---------------------------------------------------------------------------------------------
@@ -236,12 +298,44 @@ pub fn expr(s: &S) -> SimpleExpr {
     let l = s.args();
     match s.head() {
         "col" | "star" | "tstar" => SimpleExpr::Column(colref(s)),
-        "tuple" => SimpleExpr::Tuple(l.iter().map(expr).collect()),
-        "not" => SimpleExpr::Unary(UnOper::Not, Box::new(expr(&l[0]))),
-        "bin" => SimpleExpr::Binary(Box::new(expr(&l[1])), binop_named(l[0].atom()), Box::new(expr(&l[2]))),
+        // Every node that has a public constructor / method is built, for part of the cases, THROUGH that
+        // constructor instead of the enum variant (the choice is a hash of the node's text, so a case always
+        // takes the same path): the model is indifferent, so a constructor that builds something else than the
+        // variant shows up as a rendering disagreement.
+        "tuple" => {
+            if shash(s) % 2 == 0 {
+                SimpleExpr::Tuple(l.iter().map(expr).collect())
+            } else {
+                Expr::tuple(l.iter().map(expr)).into()
+            }
+        }
+        "not" => {
+            if shash(s) % 2 == 0 {
+                SimpleExpr::Unary(UnOper::Not, Box::new(expr(&l[0])))
+            } else {
+                ExprTrait::not(expr(&l[0]))
+            }
+        }
+        "bin" => {
+            let (lft, rgt) = (expr(&l[1]), expr(&l[2]));
+            let name = l[0].atom();
+            match shash(s) % 3 {
+                1 => match api_bin(lft.clone(), name, rgt.clone()) {
+                    Some(e) => e,
+                    None => SimpleExpr::Binary(Box::new(lft), binop_named(name), Box::new(rgt)),
+                },
+                2 => ExprTrait::binary(lft, binop_named(name), rgt),
+                _ => SimpleExpr::Binary(Box::new(lft), binop_named(name), Box::new(rgt)),
+            }
+        }
         "fn" => {
             let name = l[0].atom();
             let args: Vec<SimpleExpr> = l[1..].iter().map(expr).collect();
+            if shash(s) % 2 == 1 {
+                if let Some(fc) = api_func(name, &args) {
+                    return SimpleExpr::FunctionCall(fc);
+                }
+            }
             let fc = if let Some(h) = name.strip_prefix("cust:") {
                 Func::cust(a(&unhexs(h)))
             } else {
@@ -259,11 +353,34 @@ pub fn expr(s: &S) -> SimpleExpr {
                 "all" => Some(SubQueryOper::All),
                 _ => panic!("sqop"),
             };
+            // Expr::exists / any / some / all take a SelectStatement
+            if shash(s) % 2 == 1 && l[1].head() == "select" {
+                let sel = crate::stmts::select(&l[1]);
+                match op {
+                    Some(SubQueryOper::Exists) => return Expr::exists(sel),
+                    Some(SubQueryOper::Any) => return Expr::any(sel),
+                    Some(SubQueryOper::Some) => return Expr::some(sel),
+                    Some(SubQueryOper::All) => return Expr::all(sel),
+                    None => return SimpleExpr::SubQuery(None, Box::new(SubQueryStatement::SelectStatement(sel))),
+                }
+            }
             SimpleExpr::SubQuery(op, Box::new(crate::stmts::subquery(&l[1])))
         }
-        "val" => SimpleExpr::Value(value(&l[0])),
+        "val" => {
+            if shash(s) % 2 == 0 {
+                SimpleExpr::Value(value(&l[0]))
+            } else {
+                Expr::val(value(&l[0])).into()
+            }
+        }
         "vals" => SimpleExpr::Values(l.iter().map(value).collect()),
-        "cust" => SimpleExpr::Custom(hx(&l[0])),
+        "cust" => {
+            if shash(s) % 2 == 0 {
+                SimpleExpr::Custom(hx(&l[0]))
+            } else {
+                Expr::cust(hx(&l[0]))
+            }
+        }
         "custw" => SimpleExpr::CustomWithExpr(hx(&l[0]), l[1..].iter().map(expr).collect()),
         // the same node through the public constructors (0..n arguments, the empty list included)
         "custv" => Expr::cust_with_values(hx(&l[0]), l[1..].iter().map(value)),
